@@ -25,7 +25,8 @@ pub fn profile_universe() -> Profile {
     p.generics = 20;
     p.docs = 30;
     p.no_parent_escape = true;
-    p.doc_merge_safe = true;
+    p.doc_merge_safe = false;
+    p.blank_block_lines = true;
     p.recursion = 5;
     p.enums = 35;
     p.prefix_names = 25;
@@ -102,15 +103,6 @@ pub fn build_uni(p: &Placed, server: &mut Server, scratch: &std::path::Path) -> 
     for (i, pth) in path_of_def.iter().enumerate() {
         if part_of_def[i].is_some() {
             *by_path.entry(pth).or_default() += 1;
-        }
-    }
-    // known findings of the text merge: excluded by construction
-    for part in part_of_def.iter().flatten() {
-        // (`export type` in the type-level doc in front of the declaration is harmless; inside the
-        // body - field docs - it is the listed finding)
-        let real_start = if part.decl_text.starts_with("/**") { part.decl_text.find("*/\n").map(|i| i + 3).unwrap_or(0) } else { 0 };
-        if part.decl_text.contains("\n\n") || part.decl_text.rfind("export type ") != Some(real_start) {
-            return Ok(None);
         }
     }
     Ok(Some(Uni {
